@@ -1736,5 +1736,691 @@ Proof.
       exact (gh_transfer_batch (is_hopeful A) s K1 K2 K3 H Hc HD).
 Qed.
 
+
+(* ====================================================================================================
+   Seats are never over-committed (C09): while every winner was elected on reaching the quota, at most
+   [seats] candidates are elected; the epilogues only elect while seats remain.
+   ==================================================================================================== *)
+Definition ElQ (s : est) : Prop := forall c, In c (cands s) -> cst c = Elected -> R (quota s) <= R (cvote c).
+
+(* tallies never decrease and statuses do not change through a ballot loop *)
+Definition relmono (l0 l1 : list cand) : Prop :=
+  Forall2 (fun c0 c1 : cand => cid c1 = cid c0 /\ cst c1 = cst c0 /\ cpend c1 = cpend c0 /\ R (cvote c0) <= R (cvote c1)) l0 l1.
+Lemma relmono_refl l : relmono l l.
+Proof. induction l; constructor; auto. repeat split; lia. Qed.
+Lemma relmono_trans l0 l1 l2 : relmono l0 l1 -> relmono l1 l2 -> relmono l0 l2.
+Proof.
+  intros H. revert l2. induction H as [|a b l0 l1 (E1 & E2 & E3 & E4) _ IH]; intros l2 H2; inversion H2 as [|? c ? l2' (F1 & F2 & F3 & F4) H2']; subst; constructor; [|apply IH; exact H2'].
+  repeat split; try congruence; lia.
+Qed.
+Lemma relmono_add (l : list cand) i x : 0 <= R x -> relmono l (upd_cand A i (fun c => with_vote c (add A (cvote c) x)) l).
+Proof.
+  intros Hx. unfold upd_cand. induction l as [|c l IH]; cbn [map]; constructor; [|exact IH].
+  destruct (cid c =? i); cbn [cid cst cpend cvote with_vote]; repeat split; try lia. rewrite (r_add A S ZL). lia.
+Qed.
+Lemma relmono_in l0 l1 c1 : relmono l0 l1 -> In c1 l1 ->
+  exists c0, In c0 l0 /\ cid c1 = cid c0 /\ cst c1 = cst c0 /\ cpend c1 = cpend c0 /\ R (cvote c0) <= R (cvote c1).
+Proof.
+  induction 1 as [|a b l0 l1 Hab _ IH]; intros Hin; [contradiction|]. destruct Hin as [<-|Hin].
+  - exists a. split; [left; reflexivity|exact Hab].
+  - destruct (IH Hin) as (c0 & H0 & Hr). exists c0. split; [right; exact H0|exact Hr].
+Qed.
+
+Lemma mono_transfer keep (s : est) b : wfb b ->
+  relmono (cands s) (cands (fst (transfer A keep s b))) /\ R (exhausted s) <= R (exhausted (fst (transfer A keep s b))).
+Proof.
+  intros Hw. pose proof (transfer_spec keep s b) as H. cbv zeta in H. destruct H as (Ew & Em & _ & [(c & cc & _ & _ & _ & E)|(_ & E)]); rewrite E.
+  - split; [|cbn; lia]. unfold add_vote, upd. cbn [cands set_cands]. apply relmono_add. apply (bval_nonneg (snd (transfer A keep s b))). exact (wfb_same b _ Ew Em Hw).
+  - split; [apply relmono_refl|]. cbn [exhausted set_exhausted]. rewrite (r_add A S ZL).
+    pose proof (bval_nonneg (snd (transfer A keep s b)) (wfb_same b _ Ew Em Hw)) as Hn. unfold bval in Hn. lia.
+Qed.
+
+Lemma mono_pb keep wsel sel (P' : est -> Prop) :
+  (forall s b w, P' s -> wfb b -> wsel s b = Ok w -> 0 <= R w) ->
+  (forall s s', P' s -> relmono (cands s) (cands s') -> P' s') ->
+  forall bs s acc, Forall wfb bs -> P' s ->
+    relmono (cands s) (cands (fst (process_ballots A (f_gen keep wsel) sel bs s acc))) /\
+    R (exhausted s) <= R (exhausted (fst (process_ballots A (f_gen keep wsel) sel bs s acc))).
+Proof.
+  intros Hw HP. induction bs as [|b t IH]; intros s acc Hwf Hs; cbn [process_ballots]; [cbn [fst]; split; [apply relmono_refl|lia]|].
+  inversion Hwf as [|? ? Hb Ht]; subst. destruct (crashed s); [cbn [fst]; split; [apply relmono_refl|lia]|]. destruct (sel b); [|apply IH; assumption].
+  destruct (f_gen keep wsel s b) as [s1 b1] eqn:Ef.
+  assert (H1: relmono (cands s) (cands s1) /\ R (exhausted s) <= R (exhausted s1)).
+  { unfold f_gen in Ef. destruct (wsel s b) as [w|e] eqn:Ew; [|inversion Ef; subst; split; [apply relmono_refl|cbn; lia]].
+    pose proof (mono_transfer keep s (with_bweight b w)) as Hm. rewrite Ef in Hm. apply Hm.
+    split; [cbn [bweight with_bweight]; exact (Hw s b w Hs Hb Ew)|exact (proj2 Hb)]. }
+  destruct H1 as [H1 H1e]. destruct (IH s1 (b1 :: acc) Ht (HP s s1 Hs H1)) as [H2 H2e].
+  split; [eapply relmono_trans; [exact H1|exact H2]|lia].
+Qed.
+
+
+
+(* ---- ElQ through the micro-operations ---- *)
+Lemma elq_same (s s' : est) : cands s' = cands s -> quota s' = quota s -> ElQ s -> ElQ s'.
+Proof. intros E1 E2 H c Hc. rewrite E1 in Hc. rewrite E2. exact (H c Hc). Qed.
+Lemma elq_log t m (s : est) : ElQ s -> ElQ (log_action A cfg t m s).
+Proof. apply elq_same; [apply cands_log|apply quota_log]. Qed.
+Lemma elq_new_round (s : est) : ElQ s -> ElQ (new_round A cfg s).
+Proof. intros H. unfold new_round. apply elq_log. apply (elq_same s); [reflexivity|reflexivity|exact H]. Qed.
+
+Lemma elq_upd_st (s : est) i st (pf : cand -> option bool) : ElQ s ->
+  (st = Elected -> forall c, In c (cands s) -> cid c = i -> R (quota s) <= R (cvote c)) ->
+  ElQ (upd A s i (fun c => with_st c st (pf c))).
+Proof.
+  intros H Hq c' Hc' He. unfold upd in *. cbn [cands quota set_cands] in *.
+  destruct (in_upd_cand' _ _ _ _ Hc') as (c & Hc & [[Ei ->]|[Ei ->]]); [|exact (H c Hc He)].
+  cbn [cst cvote with_st] in *. exact (Hq He c Hc Ei).
+Qed.
+Lemma elq_defeat i m (s : est) : ElQ s -> ElQ (defeat A cfg i m s).
+Proof.
+  intros H. unfold defeat. destruct (find_cand A (cands s) i); [|apply (elq_same s); [reflexivity|reflexivity|exact H]].
+  apply elq_log. apply (elq_upd_st s i Defeated (@cpend A)); [exact H|discriminate].
+Qed.
+Lemma elq_unpend i m (s : est) : GH s -> ElQ s -> ElQ (unpend A cfg i m s).
+Proof.
+  intros G H. unfold unpend. destruct (find_cand A (cands s) i) as [c|] eqn:Ef; [|apply (elq_same s); [reflexivity|reflexivity|exact H]].
+  destruct (is_pending A c) eqn:Ep; [|apply (elq_same s); [reflexivity|reflexivity|exact H]].
+  assert (H1: ElQ (upd A s i (fun c0 => with_st c0 Elected (Some false)))).
+  { apply (elq_upd_st s i Elected (fun _ => Some false)); [exact H|]. intros _ c0 Hc0 Ei. apply (H c0 Hc0).
+    destruct (find_cand_In _ _ _ Ef) as [Hcin Hid].
+    rewrite (nodup_cid_inj' (cands s) c c0 (g_nd _ _ (proj1 G)) Hcin Hc0 (eq_trans Ei (eq_sym Hid))).
+    unfold is_pending, in_state in Ep. destruct (cst c); cbn in Ep; try discriminate. reflexivity. }
+  destruct m; [apply elq_log|]; exact H1.
+Qed.
+
+Definition HQ (s : est) (i : Z) : Prop := forall c, In c (cands s) -> cid c = i -> R (quota s) <= R (cvote c).
+Lemma elq_elect i m p (s : est) : ElQ s -> HQ s i -> ElQ (elect A cfg i m p s).
+Proof.
+  intros H Hq. unfold elect. destruct (find_cand A (cands s) i); [|apply (elq_same s); [reflexivity|reflexivity|exact H]].
+  apply elq_log. apply (elq_upd_st s i Elected (fun _ => Some p)); [exact H|]. intros _ c1 Hc Ei. exact (Hq c1 Hc Ei).
+Qed.
+Lemma hq_elect i j m p (s : est) : HQ s j -> HQ (elect A cfg i m p s) j.
+Proof.
+  intros H c' Hc' Ej. rewrite quota_elect. unfold elect in Hc'. destruct (find_cand A (cands s) i); [|exact (H c' Hc' Ej)].
+  rewrite cands_log in Hc'. unfold upd in Hc'. cbn [cands set_cands] in Hc'.
+  destruct (in_upd_cand' _ _ _ _ Hc') as (c1 & Hc & [[Ei ->]|[Ei ->]]); [cbn [cid cvote with_st] in *|]; exact (H c1 Hc Ej).
+Qed.
+
+Lemma elq_fold_elect (msg : option string) (pend : est -> cand -> bool) (l : list cand) : forall s,
+  ElQ s -> (forall c, In c l -> HQ s (cid c)) ->
+  ElQ (fold_left (fun s c => match msg with
+                             | None => elect_default A cfg (cid c) (pend s c) s
+                             | Some m => elect A cfg (cid c) m (pend s c) s end) l s).
+Proof.
+  induction l as [|c0 l IH]; intros s H Hl; cbn [fold_left]; [exact H|].
+  apply IH.
+  - destruct msg; [|unfold elect_default]; apply elq_elect; [exact H|apply Hl; left; reflexivity|exact H|apply Hl; left; reflexivity].
+  - intros c Hc. destruct msg; [|unfold elect_default]; apply hq_elect; apply Hl; right; exact Hc.
+Qed.
+
+Lemma elq_elect_with_quota hq pend msg extra (s : est) :
+  (forall c, hq s c = true -> R (quota s) <= R (cvote c)) ->
+  GH s -> ElQ s -> ElQ (elect_with_quota A cfg hq pend msg extra s).
+Proof.
+  intros Hq G H. unfold elect_with_quota. cbv zeta. apply elq_fold_elect; [exact H|].
+  intros c Hc. apply filter_In in Hc. destruct Hc as [Hc Hx]. unfold by_vote in Hc. apply py_sorted_in in Hc.
+  unfold hopefuls in Hc. apply filter_In in Hc. destruct Hc as [Hin _]. apply andb_prop in Hx. destruct Hx as [_ Hx].
+  intros c' Hc' E. rewrite (nodup_cid_inj' (cands s) c c' (g_nd _ _ (proj1 G)) Hin Hc' E). exact (Hq c Hx).
+Qed.
+
+(* ---- frame: the quota never changes and the non-transferable pile never shrinks ---- *)
+Definition FR (s s' : est) : Prop := quota s' = quota s /\ R (exhausted s) <= R (exhausted s').
+Lemma fr_refl s : FR s s. Proof. split; [reflexivity|lia]. Qed.
+Lemma fr_trans a b c : FR a b -> FR b c -> FR a c.
+Proof. intros [H1 H2] [K1 K2]. split; [congruence|lia]. Qed.
+Lemma fr_same (s s' : est) : quota s' = quota s -> exhausted s' = exhausted s -> FR s s'.
+Proof. intros E1 E2. split; [exact E1|rewrite E2; lia]. Qed.
+Lemma fr_log t m (s : est) : FR s (log_action A cfg t m s).
+Proof. apply fr_same; [apply quota_log|apply exhausted_log]. Qed.
+Lemma fr_elect i m p (s : est) : FR s (elect A cfg i m p s).
+Proof. unfold elect. destruct (find_cand A (cands s) i); [eapply fr_trans; [|apply fr_log]|]; apply fr_same; reflexivity. Qed.
+Lemma fr_defeat i m (s : est) : FR s (defeat A cfg i m s).
+Proof. unfold defeat. destruct (find_cand A (cands s) i); [eapply fr_trans; [|apply fr_log]|]; apply fr_same; reflexivity. Qed.
+Lemma fr_unpend i m (s : est) : FR s (unpend A cfg i m s).
+Proof.
+  unfold unpend. destruct (find_cand A (cands s) i) as [c|]; [|apply fr_same; reflexivity]. destruct (is_pending A c); [|apply fr_same; reflexivity].
+  destruct m; [eapply fr_trans; [|apply fr_log]|]; apply fr_same; reflexivity.
+Qed.
+Lemma fr_fold {X} (g : est -> X -> est) (l : list X) : (forall s x, FR s (g s x)) -> forall s, FR s (fold_left g l s).
+Proof. intros Hg. induction l as [|x l IH]; intros s; cbn [fold_left]; [apply fr_refl|]. eapply fr_trans; [apply Hg|apply IH]. Qed.
+Lemma fr_bt bt tied (s : est) : bt_logs bt -> FR s (fst (bt tied s)).
+Proof. intros Hb. destruct (Hb tied s) as [E|[(t & m & E)|(e & E & _)]]; rewrite E; [apply fr_refl|apply fr_log|apply fr_same; reflexivity]. Qed.
+
+(* ---- ElQ through ballot loops ---- *)
+Lemma quota_transfer keep (s : est) b : quota (fst (transfer A keep s b)) = quota s.
+Proof. pose proof (transfer_spec keep s b) as H. cbv zeta in H. destruct H as (_ & _ & _ & [(c & cc & _ & _ & _ & E)|(_ & E)]); rewrite E; reflexivity. Qed.
+Lemma quota_pb keep wsel sel bs : forall (s : est) acc, quota (fst (process_ballots A (f_gen keep wsel) sel bs s acc)) = quota s.
+Proof.
+  induction bs as [|b t IH]; intros s acc; cbn [process_ballots]; [reflexivity|]. destruct (crashed s); [reflexivity|]. destruct (sel b); [|apply IH].
+  destruct (f_gen keep wsel s b) as [s1 b1] eqn:Ef. rewrite IH. unfold f_gen in Ef. destruct (wsel s b) as [w0|e0]; [|inversion Ef; reflexivity].
+  pose proof (quota_transfer keep s (with_bweight b w0)) as Hq. rewrite Ef in Hq. exact Hq.
+Qed.
+
+Lemma elq_relmono (s s' : est) : relmono (cands s) (cands s') -> quota s' = quota s -> ElQ s -> ElQ s'.
+Proof.
+  intros Hm Eq H c' Hc' He. destruct (relmono_in _ _ c' Hm Hc') as (c & Hc & _ & Est & _ & Hv). rewrite Eq.
+  pose proof (H c Hc (eq_trans (eq_sym Est) He)). lia.
+Qed.
+
+Lemma elq_for_ballots keep wsel sel (P' : est -> Prop) (s : est) :
+  (forall s b w, P' s -> wfb b -> wsel s b = Ok w -> 0 <= R w) ->
+  (forall s s', P' s -> relmono (cands s) (cands s') -> P' s') ->
+  GH s -> P' s -> ElQ s -> ElQ (for_ballots A (f_gen keep wsel) sel s) /\ relmono (cands s) (cands (for_ballots A (f_gen keep wsel) sel s)) /\
+  FR s (for_ballots A (f_gen keep wsel) sel s).
+Proof.
+  intros Hw HP G Hs H. unfold FR, for_ballots.
+  destruct (mono_pb keep wsel sel P' Hw HP (ballots s) s [] (g_wfb _ _ (proj1 G)) Hs) as [Hm Hme].
+  pose proof (quota_pb keep wsel sel (ballots s) s []) as Hq.
+  destruct (process_ballots A (f_gen keep wsel) sel (ballots s) s []) as [s1 bs1]. cbn [fst] in *.
+  split; [apply (elq_relmono s); [exact Hm|exact Hq|exact H]|split; [exact Hm|split; [exact Hq|exact Hme]]].
+Qed.
+
+
+Lemma cvote_of_mono (l0 l1 : list cand) h : relmono l0 l1 ->
+  R (match find_cand A l0 h with Some c => cvote c | None => V0 A end) <= R (match find_cand A l1 h with Some c => cvote c | None => V0 A end).
+Proof.
+  unfold find_cand. induction 1 as [|a b l0 l1 (E1 & _ & _ & E4) _ IH]; cbn [find]; [lia|]. rewrite E1. destruct (cid a =? h); [exact E4|exact IH].
+Qed.
+
+Lemma elq_set_vote_quota h (s : est) : ElQ s -> ElQ (set_vote A h (quota s) s).
+Proof.
+  intros H c' Hc' He. unfold set_vote, upd in *. cbn [cands quota set_cands] in *.
+  destruct (in_upd_cand' _ _ _ _ Hc') as (c & Hc & [[Ei ->]|[Ei ->]]); [cbn [cvote with_vote]; lia|exact (H c Hc He)].
+Qed.
+Lemma elq_set_vote_other i x (s : est) : (forall c, In c (cands s) -> cid c = i -> cst c <> Elected) -> ElQ s -> ElQ (set_vote A i x s).
+Proof.
+  intros Hn H c' Hc' He. unfold set_vote, upd in *. cbn [cands quota set_cands] in *.
+  destruct (in_upd_cand' _ _ _ _ Hc') as (c & Hc & [[Ei ->]|[Ei ->]]); [cbn [cst with_vote] in He; exfalso; exact (Hn c Hc Ei He)|exact (H c Hc He)].
+Qed.
+
+Lemma unpend_ok i m (s : est) : crashed (unpend A cfg i m s) = false ->
+  exists c, find_cand A (cands s) i = Some c /\ is_pending A c = true.
+Proof.
+  unfold unpend. destruct (find_cand A (cands s) i) as [c|]; [|rewrite sticky_set_crash; discriminate].
+  destruct (is_pending A c) eqn:E; [intros _; exists c; split; [reflexivity|exact E]|rewrite sticky_set_crash; discriminate].
+Qed.
+
+Lemma elq_transfer_high bt rew (s : est) : bt_logs bt -> rew_ok rew -> GH s -> ElQ s ->
+  ElQ (transfer_high_surplus A cfg bt rew s) /\ FR s (transfer_high_surplus A cfg bt rew s).
+Proof.
+  intros Hbl Hrew G H. unfold transfer_high_surplus.
+  destruct (max_vote A (pendings A s)) as [hv|]; [|split; [apply (elq_same s); [reflexivity|reflexivity|exact H]|apply fr_same; reflexivity]].
+  cbv zeta. set (highs := filter (fun c => eqv A (cvote c) hv) (pendings A s)).
+  destruct (bt_frame bt highs s Hbl G) as (G1 & Ec1 & Eb1 & Eq1 & _).
+  assert (H1: ElQ (fst (bt highs s))) by (apply (elq_same s); assumption).
+  pose proof (fr_bt bt highs s Hbl) as F1.
+  destruct (bt highs s) as [s1 [h|]]; cbn [fst snd] in *; [|split; assumption].
+  set (s2 := unpend A cfg h (Some "Transfer high surplus"%string) s1).
+  assert (G2: GH s2) by (apply gh_unpend; exact G1).
+  assert (H2: ElQ s2) by (apply elq_unpend; assumption).
+  assert (F2: FR s s2) by (eapply fr_trans; [exact F1|apply fr_unpend]).
+  destruct (crashed s2) eqn:Hc2; [split; assumption|].
+  destruct (unpend_ok h _ s1 Hc2) as (c & Ef & Ep).
+  set (surp := sub A (cvote_of A s2 h) (quota s2)).
+  assert (Hs: 0 <= R surp /\ 0 <= R (cvote_of A s2 h)).
+  { unfold surp. rewrite (r_sub A S ZL). unfold cvote_of. destruct (find_cand A (cands s2) h) as [c2|] eqn:Ef2.
+    - destruct (find_cand_In _ _ _ Ef2) as [Hc2in Hid2].
+      assert (He2: cst c2 = Elected).
+      { destruct (find_cand_In _ _ _ Ef) as [Hcin Hid].
+        destruct (unpend_pending h (Some "Transfer high surplus"%string) s1 c (g_nd _ _ (proj1 G1)) Hcin Hid Ep) as (Ec2 & _).
+        fold s2 in Ec2. rewrite Ec2 in Hc2in. destruct (in_upd_cand' _ _ _ _ Hc2in) as (c0 & Hc0 & [[Ei ->]|[Ei ->]]); [reflexivity|congruence]. }
+      pose proof (H2 c2 Hc2in He2). pose proof (g_nonneg _ _ (proj1 G2) c2 Hc2in). lia.
+    - exfalso. destruct (find_cand_In _ _ _ Ef) as [Hcin Hid].
+      destruct (unpend_pending h (Some "Transfer high surplus"%string) s1 c (g_nd _ _ (proj1 G1)) Hcin Hid Ep) as (Ec2 & _). fold s2 in Ec2.
+      assert (Hin2: In h (map (@cid A) (cands s2))) by (rewrite Ec2, cids_upd; [rewrite <- Hid; apply in_map; exact Hcin|reflexivity]).
+      destruct (find_cand_in A _ _ Hin2) as [c2 E2]. congruence. }
+  destruct (elq_for_ballots (is_hopeful A) (fun s b => rew (bweight b) surp (cvote_of A s h)) (top_is A h)
+              (fun t => 0 <= R (cvote_of A t h)) s2) as (H3 & _ & F3); try assumption.
+  - intros t b w Ht [Hw0 _] Ew. exact (proj1 (Hrew (bweight b) surp (cvote_of A t h) w Hw0 (proj1 Hs) Ht Ew)).
+  - intros t t' Ht Hm. pose proof (cvote_of_mono (cands t) (cands t') h Hm) as Hle. unfold cvote_of. unfold cvote_of in Ht. lia.
+  - exact (proj2 Hs).
+  - change (for_ballots A (f_gen (is_hopeful A) (fun s b => rew (bweight b) surp (cvote_of A s h))) (top_is A h) s2)
+      with (for_ballots A (reweigh_transfer A (is_hopeful A) rew h surp) (top_is A h) s2) in H3, F3.
+    set (s3 := for_ballots A (reweigh_transfer A (is_hopeful A) rew h surp) (top_is A h) s2) in *.
+    assert (F3': FR s s3) by (eapply fr_trans; [exact F2|exact F3]).
+    destruct (crashed s3); [split; assumption|]. split; [apply elq_log; apply elq_set_vote_quota; exact H3|].
+    eapply fr_trans; [exact F3'|]. eapply fr_trans; [|apply fr_log]. apply fr_same; reflexivity.
+Qed.
+
+
+Lemma elq_plain keep sel (s : est) : GH s -> ElQ s -> ElQ (for_ballots A (transfer A keep) sel s).
+Proof.
+  intros G H. rewrite (for_ballots_ext _ _ sel s (transfer_as_gen keep)).
+  destruct (elq_for_ballots keep (fun _ b => Ok (bweight b)) sel (fun _ => True) s) as [H1 _]; auto.
+  intros t b w _ [Hw _] E. inversion E; subst. exact Hw.
+Qed.
+
+Lemma elq_tdo i (s : est) : GH s -> ElQ s -> Sat s i isD -> ElQ (transfer_defeated_one A cfg i s).
+Proof.
+  intros G H HS. unfold transfer_defeated_one. cbv zeta. apply elq_log. apply elq_set_vote_other; [|apply elq_plain; assumption].
+  intros c Hc Ei He. pose proof (sat_stl s _ i isD (stl_for_ballots_plain (is_hopeful A) (top_is A i) s) HS c Hc Ei) as HD.
+  unfold isD in HD. cbn in HD. congruence.
+Qed.
+
+Lemma elq_defeat_low bt msg (s : est) : bt_logs bt -> bt_ok A bt -> GH s -> ElQ s -> ElQ (defeat_low A cfg bt msg s).
+Proof.
+  intros Hbl Hbo G H. unfold defeat_low. destruct (low_candidates A s) as [[lv lows]|] eqn:El; [|apply (elq_same s); [reflexivity|reflexivity|exact H]].
+  destruct (bt_frame bt lows s Hbl G) as (G1 & Ec1 & _ & Eq1 & _). destruct (Hbo lows s) as (_ & _ & Hmem).
+  assert (H1: ElQ (fst (bt lows s))) by (apply (elq_same s); assumption).
+  destruct (bt lows s) as [s1 [l|]]; cbn [fst snd] in *; [|exact H1].
+  destruct (Hmem l eq_refl) as (c & Hcl & Hid). destruct (low_in_hop s lv lows c El Hcl) as [Hcin _].
+  assert (Hi1: In l (map (@cid A) (cands s1))) by (rewrite Ec1, <- Hid; apply in_map; exact Hcin).
+  destruct (crashed (defeat A cfg l msg s1)); [apply elq_defeat; exact H1|].
+  apply elq_tdo; [apply gh_defeat; exact G1|apply elq_defeat; exact H1|apply sat_defeat_D; exact Hi1].
+Qed.
+
+Lemma elq_fold_defeat' (mf : cand -> string) (l : list cand) : forall s, ElQ s -> ElQ (fold_left (fun s c => defeat A cfg (cid c) (mf c) s) l s).
+Proof. induction l as [|c l IH]; intros s H; cbn [fold_left]; [exact H|]. apply IH. apply elq_defeat. exact H. Qed.
+
+Lemma elq_fold_tdo (l : list cand) : forall s, GH s -> crashed s = false -> ElQ s ->
+  (forall c, In c l -> In (cid c) (map (@cid A) (cands s)) /\ Sat s (cid c) isD) ->
+  ElQ (fold_left (fun s c => transfer_defeated_one A cfg (cid c) s) l s).
+Proof.
+  induction l as [|c0 l IH]; intros s G Hc H Hl; cbn [fold_left]; [exact H|].
+  destruct (Hl c0 (or_introl eq_refl)) as [Hi0 HS0]. destruct (gh_tdo (cid c0) s G Hc Hi0 HS0) as [G1 Hc1].
+  apply IH; [exact G1|exact Hc1|apply elq_tdo; assumption|]. intros c Hcin. destruct (Hl c (or_intror Hcin)) as [Hi HS].
+  split; [rewrite (ids_stl _ _ (stl_tdo (cid c0) s)); exact Hi|exact (sat_stl _ _ _ _ (stl_tdo (cid c0) s) HS)].
+Qed.
+
+Lemma elq_wigm_defeat (s : est) : GH s -> crashed s = false -> ElQ s -> ElQ (wigm_defeat A cfg s).
+Proof.
+  intros G Hc H. unfold wigm_defeat. destruct (low_candidates A s) as [[lv lows]|] eqn:El; [|apply (elq_same s); [reflexivity|reflexivity|exact H]].
+  destruct (eqv A lv (V0 A) && cf_batch_zero cfg && (seats_left A cfg s <=? nlen (hopefuls A s) - nlen lows)).
+  - assert (Hl: forall c, In c lows -> In (cid c) (map (@cid A) (cands s))) by (intros c Hcl; apply in_map; exact (proj1 (low_in_hop s lv lows c El Hcl))).
+    destruct (fold_defeat_facts "Defeat batch(zero)" lows s G Hl) as (G1 & Ecr1 & Eid1 & _ & HD). cbv zeta in *.
+    apply elq_fold_tdo; [exact G1|rewrite Ecr1; exact Hc|apply (elq_fold_defeat' (fun _ => "Defeat batch(zero)"%string)); exact H|].
+    intros c Hcl. split; [rewrite Eid1; apply Hl; exact Hcl|apply HD; exact Hcl].
+  - pose proof (elq_defeat_low (bt_simple A cfg "defeat") "Defeat" s (bt_simple_logs _) (bt_simple_ok A cfg _) G H) as E.
+    unfold defeat_low in E. rewrite El in E. exact E.
+Qed.
+
+(* batches *)
+Lemma elq_defeat_batch_order msg (s : est) : ElQ s -> ElQ (defeat_batch_in_ballot_order A cfg msg s).
+Proof. intros H. unfold defeat_batch_in_ballot_order. apply (elq_fold_defeat' (fun _ => msg)). exact H. Qed.
+
+Lemma elq_fold_set_vote0 (l : list Z) : forall s : est, (forall i c, In i l -> In c (cands s) -> cid c = i -> cst c <> Elected) -> ElQ s ->
+  ElQ (fold_left (fun s i => set_vote A i (V0 A) s) l s).
+Proof.
+  induction l as [|i l IH]; intros s Hn H; cbn [fold_left]; [exact H|]. apply IH.
+  - intros j c' Hj Hc' Ej. unfold set_vote, upd in Hc'. cbn [cands set_cands] in Hc'.
+    destruct (in_upd_cand' _ _ _ _ Hc') as (c & Hcin & [[Ei ->]|[Ei ->]]); cbn [cid cst with_vote] in *; exact (Hn j c (or_intror Hj) Hcin Ej).
+  - apply elq_set_vote_other; [intros c Hcin Ei; exact (Hn i c (or_introl eq_refl) Hcin Ei)|exact H].
+Qed.
+
+Lemma elq_transfer_batch keep (s : est) : GH s -> ElQ s -> BatchD s -> ElQ (transfer_batch A cfg keep s).
+Proof.
+  intros G H HB. unfold transfer_batch. cbv zeta. apply elq_log. apply elq_fold_set_vote0; [|apply elq_plain; assumption].
+  intros i c Hi Hc Ei He. destruct (HB i Hi) as [_ HS].
+  pose proof (sat_stl s _ i isD (stl_for_ballots_plain keep (top_in A (lv_batch s)) s) HS c Hc Ei) as HD. unfold isD in HD. cbn in HD. congruence.
+Qed.
+
+
+Lemma fr_for_ballots keep wsel sel (P' : est -> Prop) (s : est) :
+  (forall s b w, P' s -> wfb b -> wsel s b = Ok w -> 0 <= R w) ->
+  (forall s s', P' s -> relmono (cands s) (cands s') -> P' s') ->
+  GH s -> P' s -> FR s (for_ballots A (f_gen keep wsel) sel s).
+Proof.
+  intros Hw HP G Hs. unfold for_ballots.
+  destruct (mono_pb keep wsel sel P' Hw HP (ballots s) s [] (g_wfb _ _ (proj1 G)) Hs) as [_ Hme].
+  pose proof (quota_pb keep wsel sel (ballots s) s []) as Hq.
+  destruct (process_ballots A (f_gen keep wsel) sel (ballots s) s []) as [s1 bs1]. cbn [fst] in *. split; [exact Hq|exact Hme].
+Qed.
+Lemma fr_plain keep sel (s : est) : GH s -> FR s (for_ballots A (transfer A keep) sel s).
+Proof.
+  intros G. rewrite (for_ballots_ext _ _ sel s (transfer_as_gen keep)).
+  apply (fr_for_ballots keep (fun _ b => Ok (bweight b)) sel (fun _ => True)); auto. intros t b w _ [Hw _] E. inversion E; subst. exact Hw.
+Qed.
+
+(* the bundle carried through the main loop *)
+Definition EQ (s : est) : Prop := ElQ s /\ 0 <= R (exhausted s) /\ B < (cf_nseats cfg + 1) * R (quota s).
+Lemma eq_fr (s s' : est) : FR s s' -> ElQ s' -> EQ s -> EQ s'.
+Proof. intros [F1 F2] H' (_ & E2 & E3). split; [exact H'|]. split; [lia|rewrite F1; exact E3]. Qed.
+
+
+Lemma fr_tdo i (s : est) : GH s -> FR s (transfer_defeated_one A cfg i s).
+Proof.
+  intros G. unfold transfer_defeated_one. cbv zeta. eapply fr_trans; [apply (fr_plain (is_hopeful A) (top_is A i) s G)|].
+  eapply fr_trans; [|apply fr_log]. apply fr_same; reflexivity.
+Qed.
+Lemma fr_defeat_low bt msg (s : est) : bt_logs bt -> GH s -> FR s (defeat_low A cfg bt msg s).
+Proof.
+  intros Hbl G. unfold defeat_low. destruct (low_candidates A s) as [[lv lows]|]; [|apply fr_same; reflexivity].
+  destruct (bt_frame bt lows s Hbl G) as (G1 & _). pose proof (fr_bt bt lows s Hbl) as F1.
+  destruct (bt lows s) as [s1 [l|]]; cbn [fst snd] in *; [|exact F1].
+  assert (F2: FR s (defeat A cfg l msg s1)) by (eapply fr_trans; [exact F1|apply fr_defeat]).
+  destruct (crashed (defeat A cfg l msg s1)); [exact F2|]. eapply fr_trans; [exact F2|]. apply fr_tdo. apply gh_defeat. exact G1.
+Qed.
+Lemma fr_fold_tdo (l : list cand) : forall s, GH s -> crashed s = false ->
+  (forall c, In c l -> In (cid c) (map (@cid A) (cands s)) /\ Sat s (cid c) isD) ->
+  FR s (fold_left (fun s c => transfer_defeated_one A cfg (cid c) s) l s).
+Proof.
+  induction l as [|c0 l IH]; intros s G Hc Hl; cbn [fold_left]; [apply fr_refl|].
+  destruct (Hl c0 (or_introl eq_refl)) as [Hi0 HS0]. destruct (gh_tdo (cid c0) s G Hc Hi0 HS0) as [G1 Hc1].
+  eapply fr_trans; [apply fr_tdo; exact G|]. apply IH; [exact G1|exact Hc1|]. intros c Hcin. destruct (Hl c (or_intror Hcin)) as [Hi HS].
+  split; [rewrite (ids_stl _ _ (stl_tdo (cid c0) s)); exact Hi|exact (sat_stl _ _ _ _ (stl_tdo (cid c0) s) HS)].
+Qed.
+Lemma fr_wigm_defeat (s : est) : GH s -> crashed s = false -> FR s (wigm_defeat A cfg s).
+Proof.
+  intros G Hc. unfold wigm_defeat. destruct (low_candidates A s) as [[lv lows]|] eqn:El; [|apply fr_same; reflexivity].
+  destruct (eqv A lv (V0 A) && cf_batch_zero cfg && (seats_left A cfg s <=? nlen (hopefuls A s) - nlen lows)).
+  - assert (Hl: forall c, In c lows -> In (cid c) (map (@cid A) (cands s))) by (intros c Hcl; apply in_map; exact (proj1 (low_in_hop s lv lows c El Hcl))).
+    destruct (fold_defeat_facts "Defeat batch(zero)" lows s G Hl) as (G1 & Ecr1 & Eid1 & _ & HD). cbv zeta in *.
+    eapply fr_trans; [apply (fr_fold (fun s c => defeat A cfg (cid c) "Defeat batch(zero)" s) lows); intros; apply fr_defeat|].
+    apply fr_fold_tdo; [exact G1|rewrite Ecr1; exact Hc|]. intros c Hcl. split; [rewrite Eid1; apply Hl; exact Hcl|apply HD; exact Hcl].
+  - pose proof (fr_defeat_low (bt_simple A cfg "defeat") "Defeat" s (bt_simple_logs _) G) as E. unfold defeat_low in E. rewrite El in E. exact E.
+Qed.
+Lemma fr_defeat_batch_order msg (s : est) : FR s (defeat_batch_in_ballot_order A cfg msg s).
+Proof. unfold defeat_batch_in_ballot_order. apply fr_fold. intros; apply fr_defeat. Qed.
+Lemma fr_transfer_batch keep (s : est) : GH s -> FR s (transfer_batch A cfg keep s).
+Proof.
+  intros G. unfold transfer_batch. cbv zeta. eapply fr_trans; [apply (fr_plain keep (top_in A (lv_batch s)) s G)|].
+  eapply fr_trans; [|apply fr_log]. destruct (fold_set_vote_frame (V0 A) (lv_batch s) (for_ballots A (transfer A keep) (top_in A (lv_batch s)) s)) as (_ & _ & E3 & E4 & _).
+  apply fr_same; assumption.
+Qed.
+Lemma fr_elect_with_quota hq pend msg extra (s : est) : FR s (elect_with_quota A cfg hq pend msg extra s).
+Proof. unfold elect_with_quota. cbv zeta. apply fr_fold. intros s0 c. destruct msg; [|unfold elect_default]; apply fr_elect. Qed.
+
+(* ---- the bound ---- *)
+Lemma elected_sum_le (l : list cand) q : (forall c, In c l -> 0 <= R (cvote c)) -> (forall c, In c l -> cst c = Elected -> q <= R (cvote c)) ->
+  nlen (filter (in_state A Elected) l) * q <= fold_right (fun c acc => R (cvote c) + acc) 0 l.
+Proof.
+  unfold nlen. induction l as [|c l IH]; intros Hn Hq; [cbn; lia|]. cbn [filter fold_right].
+  pose proof (IH (fun c' H' => Hn c' (or_intror H')) (fun c' H' => Hq c' (or_intror H'))) as IH'.
+  pose proof (Hn c (or_introl eq_refl)) as Hc. destruct (in_state A Elected c) eqn:E.
+  - assert (Hst: cst c = Elected) by (unfold in_state in E; destruct (cst c); cbn in E; congruence).
+    pose proof (Hq c (or_introl eq_refl) Hst). cbn [List.length]. rewrite Nat2Z.inj_succ. lia.
+  - lia.
+Qed.
+
+Theorem seats_bound (s : est) : Good B s -> EQ s -> nlen (electeds A s) <= cf_nseats cfg.
+Proof.
+  intros G (HE & Hx & Hq). pose proof (elected_sum_le (cands s) (R (quota s)) (g_nonneg _ _ G) HE) as Hs.
+  pose proof (g_total _ _ G) as Ht. unfold Gregory.total, tot_votes in Ht. unfold electeds.
+  pose proof (g_quota _ _ G) as Hq0.
+  destruct (Z_le_gt_dec (nlen (filter (in_state A Elected) (cands s))) (cf_nseats cfg)) as [Hle|Hgt]; [exact Hle|exfalso]. nia.
+Qed.
+
+
+(* ---- counting elected candidates ---- *)
+Definition nel (l : list cand) : Z := nlen (filter (in_state A Elected) l).
+Lemma upd_absent i f (l : list cand) : ~ In i (map (@cid A) l) -> upd_cand A i f l = l.
+Proof.
+  unfold upd_cand. induction l as [|c l IH]; intros Hn; [reflexivity|]. cbn [map In] in *. destruct (cid c =? i) eqn:E; [exfalso; apply Hn; left; lia|].
+  rewrite IH; [reflexivity|]. intros H; apply Hn; right; exact H.
+Qed.
+Lemma nel_upd_le i f (l : list cand) : NoDup (map (@cid A) l) -> nel (upd_cand A i f l) <= nel l + 1.
+Proof.
+  unfold nel, nlen. induction l as [|c l IH]; intros Hnd; [cbn; lia|]. cbn [map] in Hnd. inversion Hnd as [|? ? Hn Hnd']; subst.
+  unfold upd_cand in *. cbn [map]. destruct (cid c =? i) eqn:E.
+  - assert (cid c = i) by lia. subst i. pose proof (upd_absent (cid c) f l Hn) as Ha. unfold upd_cand in Ha. rewrite Ha. cbn [filter].
+    destruct (in_state A Elected (f c)), (in_state A Elected c); cbn [List.length]; lia.
+  - cbn [filter]. specialize (IH Hnd'). destruct (in_state A Elected c); cbn [List.length]; lia.
+Qed.
+Lemma nel_upd_notel i f (l : list cand) : (forall c, in_state A Elected (f c) = true -> in_state A Elected c = true) -> nel (upd_cand A i f l) <= nel l.
+Proof.
+  intros Hf. unfold nel, nlen, upd_cand. induction l as [|c l IH]; [cbn; lia|]. cbn [map filter]. destruct (cid c =? i).
+  - destruct (in_state A Elected (f c)) eqn:E1; [rewrite (Hf c E1)|destruct (in_state A Elected c)]; cbn [List.length]; lia.
+  - destruct (in_state A Elected c); cbn [List.length]; lia.
+Qed.
+Lemma nel_elect i m p (s : est) : NoDup (map (@cid A) (cands s)) -> nel (cands (elect A cfg i m p s)) <= nel (cands s) + 1.
+Proof. intros Hnd. unfold elect. destruct (find_cand A (cands s) i); [|cbn; lia]. rewrite cands_log. unfold upd. cbn [cands set_cands]. apply nel_upd_le. exact Hnd. Qed.
+Lemma nel_defeat i m (s : est) : nel (cands (defeat A cfg i m s)) <= nel (cands s).
+Proof. unfold defeat. destruct (find_cand A (cands s) i); [|cbn; lia]. rewrite cands_log. unfold upd. cbn [cands set_cands]. apply nel_upd_notel. intros c1 E. cbn in E. discriminate. Qed.
+Lemma nel_upd_same i f (l : list cand) : (forall c, In c l -> cid c = i -> in_state A Elected (f c) = in_state A Elected c) -> nel (upd_cand A i f l) = nel l.
+Proof.
+  unfold nel, nlen, upd_cand. induction l as [|c l IH]; intros H; [reflexivity|]. cbn [map filter].
+  pose proof (IH (fun c' Hc' => H c' (or_intror Hc'))) as IH'. destruct (cid c =? i) eqn:E.
+  - rewrite (H c (or_introl eq_refl) ltac:(lia)). destruct (in_state A Elected c); cbn [List.length]; lia.
+  - destruct (in_state A Elected c); cbn [List.length]; lia.
+Qed.
+Lemma nel_unpend i m (s : est) : NoDup (map (@cid A) (cands s)) -> nel (cands (unpend A cfg i m s)) = nel (cands s).
+Proof.
+  intros Hnd. unfold unpend. destruct (find_cand A (cands s) i) as [c|] eqn:Ef; [|reflexivity]. destruct (is_pending A c) eqn:Ep; [|reflexivity].
+  assert (H: nel (cands (upd A s i (fun c0 => with_st c0 Elected (Some false)))) = nel (cands s)).
+  { unfold upd. cbn [cands set_cands]. apply nel_upd_same. intros c0 Hc0 Ei. destruct (find_cand_In _ _ _ Ef) as [Hcin Hid].
+    rewrite (nodup_cid_inj' (cands s) c c0 Hnd Hcin Hc0 (eq_trans Ei (eq_sym Hid))).
+    unfold is_pending in Ep. apply andb_prop in Ep. rewrite (proj1 Ep). reflexivity. }
+  destruct m; [rewrite cands_log|]; exact H.
+Qed.
+Lemma ids_unpend i m (s : est) : map (@cid A) (cands (unpend A cfg i m s)) = map (@cid A) (cands s).
+Proof.
+  unfold unpend. destruct (find_cand A (cands s) i) as [c|]; [|reflexivity]. destruct (is_pending A c); [|reflexivity].
+  destruct m; [rewrite cands_log|]; unfold upd; cbn [cands set_cands]; apply cids_upd; reflexivity.
+Qed.
+Lemma ids_elect i m p (s : est) : map (@cid A) (cands (elect A cfg i m p s)) = map (@cid A) (cands s).
+Proof. unfold elect. destruct (find_cand A (cands s) i); [|reflexivity]. rewrite cands_log. unfold upd. cbn [cands set_cands]. apply cids_upd. reflexivity. Qed.
+
+Lemma nel_unpend_all (s : est) : NoDup (map (@cid A) (cands s)) -> nel (cands (unpend_all A cfg s)) = nel (cands s).
+Proof.
+  unfold unpend_all. generalize (pendings A s) as l. intros l. revert s. induction l as [|c l IH]; intros s Hnd; cbn [fold_left]; [reflexivity|].
+  rewrite IH; [apply nel_unpend; exact Hnd|rewrite ids_unpend; exact Hnd].
+Qed.
+
+Lemma nel_eodr (s : est) : NoDup (map (@cid A) (cands s)) -> nel (cands s) <= cf_nseats cfg ->
+  nel (cands (elect_or_defeat_remaining A cfg s)) <= cf_nseats cfg.
+Proof.
+  unfold elect_or_defeat_remaining. generalize (hopefuls A s) as l. intros l. revert s. induction l as [|c l IH]; intros s Hnd Hle; cbn [fold_left]; [exact Hle|].
+  apply IH.
+  - destruct (_ <? _); [rewrite ids_elect|rewrite ids_defeat]; exact Hnd.
+  - destruct (nlen (electeds A s) <? cf_nseats cfg) eqn:E.
+    + pose proof (nel_elect (cid c) "Elect remaining" false s Hnd). unfold nel, electeds in *. lia.
+    + pose proof (nel_defeat (cid c) "Defeat remaining" s). lia.
+Qed.
+
+Lemma nel_fold_elect m p (l : list cand) : forall s : est, NoDup (map (@cid A) (cands s)) ->
+  nel (cands (fold_left (fun s c => elect A cfg (cid c) m p s) l s)) <= nel (cands s) + nlen l.
+Proof.
+  unfold nlen. induction l as [|c l IH]; intros s Hnd; cbn [fold_left List.length]; [lia|].
+  specialize (IH (elect A cfg (cid c) m p s)). rewrite ids_elect in IH. specialize (IH Hnd). pose proof (nel_elect (cid c) m p s Hnd). rewrite Nat2Z.inj_succ. lia.
+Qed.
+Lemma nel_fold_defeat m (l : list cand) : forall s : est, nel (cands (fold_left (fun s c => defeat A cfg (cid c) m s) l s)) <= nel (cands s).
+Proof. induction l as [|c l IH]; intros s; cbn [fold_left]; [lia|]. pose proof (IH (defeat A cfg (cid c) m s)). pose proof (nel_defeat (cid c) m s). lia. Qed.
+
+
+(* ---- the quota exceeds ballots/(seats+1) ---- *)
+Hypothesis HB : B = cf_nballots cfg * S.
+Definition QX (q : T A) : Prop := B < (cf_nseats cfg + 1) * R q.
+
+Lemma floor_plus_one n d : 0 < d -> n < d * (n / d + 1).
+Proof. intros Hd. pose proof (Z.mod_pos_bound n d Hd). pose proof (Z.div_mod n d ltac:(lia)). nia. Qed.
+
+Lemma integer_quota_exceeds : QX (integer_droop_quota A cfg).
+Proof.
+  unfold QX, integer_droop_quota. rewrite HB, (r_of_int A S ZL). pose proof (S_pos A S ZL) as HS.
+  pose proof (floor_plus_one (cf_nballots cfg) (cf_nseats cfg + 1) ltac:(lia)). nia.
+Qed.
+Lemma droop_quota_eps_exceeds q : droop_quota_eps A cfg = Ok q -> QX q.
+Proof.
+  unfold droop_quota_eps, QX. pose proof (S_pos A S ZL) as HS.
+  destruct (Z.eq_dec (R (of_int A (cf_nseats cfg + 1))) 0) as [Hz|Hnz]; [rewrite (r_divv0 A S ZL _ _ Hz); discriminate|].
+  destruct (r_divv A S ZL (of_int A (cf_nballots cfg)) (of_int A (cf_nseats cfg + 1)) Hnz) as (c & E & Ec). rewrite E.
+  intros H. assert (Eq: q = add A c (epsilon A)) by congruence. rewrite Eq, (r_add A S ZL), Ec, !(r_of_int A S ZL), HB. pose proof (r_eps A S ZL).
+  rewrite Z.div_mul_cancel_r by lia. pose proof (floor_plus_one (cf_nballots cfg * S) (cf_nseats cfg + 1) ltac:(lia)). nia.
+Qed.
+Lemma wigm_quota_exceeds q : wigm_quota A cfg = Ok q -> QX q.
+Proof.
+  unfold wigm_quota. destruct (cf_integer_quota cfg).
+  - intros H. assert (E: q = of_int A (1 + cf_nballots cfg / (cf_nseats cfg + 1))) by congruence. rewrite E. unfold QX. rewrite HB, (r_of_int A S ZL).
+    pose proof (S_pos A S ZL) as HS. pose proof (floor_plus_one (cf_nballots cfg) (cf_nseats cfg + 1) ltac:(lia)). nia.
+  - rewrite Hex. apply droop_quota_eps_exceeds.
+Qed.
+
+(* ---- the main loops keep GH and EQ together ---- *)
+Definition GE (s : est) : Prop := GN s /\ EQ s.
+Fixpoint pnc2 (c : cmd est) : Prop :=
+  match c with
+  | Do f => forall s, GH s -> EQ s -> crashed s = false -> crashed (f s) = false -> GH (f s) /\ EQ (f s)
+  | Seq a b | Ite _ a b => pnc2 a /\ pnc2 b
+  | While _ b => pnc2 b
+  | _ => True
+  end.
+Lemma pnc2_triple c : pnc2 c -> T3 GE c GE GE GE.
+Proof.
+  induction c as [f|a IHa b IHb|g a IHa b IHb|g body IH| | |]; cbn [pnc2]; intros H.
+  - apply t_do_nc. intros s [[H1 H2] H3] Hc. destruct (H s H1 H3 H2 Hc) as [K1 K2]. split; [split; assumption|exact K2].
+  - destruct H as [Ha Hb]. eapply t_seq; [apply IHa; exact Ha|apply IHb; exact Hb].
+  - destruct H as [Ha Hb]. apply t_ite; (eapply t_pre; [|first [apply IHa; exact Ha|apply IHb; exact Hb]]); intros s [Hs _]; exact Hs.
+  - eapply t_post; [|apply (t_while est (@crashed A) GE GE)].
+    + intros s [Hs|[Hs _]]; exact Hs.
+    + eapply t_pre; [|apply IH; exact H]. intros s [Hs _]; exact Hs.
+  - apply t_break'. auto.
+  - apply t_continue'. auto.
+  - apply t_skip'. auto.
+Qed.
+
+Lemma ge_new_round (s : est) : GH s -> EQ s -> GH (new_round A cfg s) /\ EQ (new_round A cfg s).
+Proof.
+  intros G E. split; [apply gh_new_round; exact G|]. apply (eq_fr s); [|apply elq_new_round; exact (proj1 E)|exact E].
+  unfold new_round. eapply fr_trans; [|apply fr_log]. apply fr_same; reflexivity.
+Qed.
+Lemma ge_elect_with_quota hq pend msg extra (s : est) : (forall c, hq s c = true -> R (quota s) <= R (cvote c)) ->
+  GH s -> EQ s -> GH (elect_with_quota A cfg hq pend msg extra s) /\ EQ (elect_with_quota A cfg hq pend msg extra s).
+Proof.
+  intros Hq G E. split; [apply gh_elect_with_quota; assumption|]. apply (eq_fr s); [apply fr_elect_with_quota|apply elq_elect_with_quota; [exact Hq|exact G|exact (proj1 E)]|exact E].
+Qed.
+Lemma ge_transfer_high bt rew (s : est) : bt_logs bt -> bt_ok A bt -> rew_ok rew -> GH s -> EQ s -> crashed s = false ->
+  crashed (transfer_high_surplus A cfg bt rew s) = false ->
+  GH (transfer_high_surplus A cfg bt rew s) /\ EQ (transfer_high_surplus A cfg bt rew s).
+Proof.
+  intros Hbl Hbo Hrew G E Hc Hcf. split; [apply gh_transfer_high; assumption|].
+  destruct (elq_transfer_high bt rew s Hbl Hrew G (proj1 E)) as [H F]. exact (eq_fr s _ F H E).
+Qed.
+Lemma ge_wigm_defeat (s : est) : GH s -> EQ s -> crashed s = false -> crashed (wigm_defeat A cfg s) = false ->
+  GH (wigm_defeat A cfg s) /\ EQ (wigm_defeat A cfg s).
+Proof.
+  intros G E Hc Hcf. split; [apply gh_wigm_defeat; assumption|]. apply (eq_fr s); [apply fr_wigm_defeat; assumption|apply elq_wigm_defeat; [exact G|exact Hc|exact (proj1 E)]|exact E].
+Qed.
+Lemma ge_defeat_low bt msg (s : est) : bt_logs bt -> bt_ok A bt -> GH s -> EQ s -> crashed s = false -> crashed (defeat_low A cfg bt msg s) = false ->
+  GH (defeat_low A cfg bt msg s) /\ EQ (defeat_low A cfg bt msg s).
+Proof.
+  intros Hbl Hbo G E Hc Hcf. split; [apply gh_defeat_low; assumption|]. apply (eq_fr s); [apply fr_defeat_low; assumption|apply elq_defeat_low; try assumption; exact (proj1 E)|exact E].
+Qed.
+
+
+(* ---- whole rules: at most [seats] candidates are elected ---- *)
+Definition Pre2 (s : est) : Prop := Pre s /\ forall c, In c (cands s) -> cst c <> Elected.
+Definition SeatsOK (s : est) : Prop := GN s /\ nel (cands s) <= cf_nseats cfg.
+
+Lemma start_facts q (s : est) : Pre s ->
+  stl (cands (start_count A (Ok q) s)) = stl (cands s) /\ quota (start_count A (Ok q) s) = q /\ exhausted (start_count A (Ok q) s) = V0 A.
+Proof.
+  intros P. unfold start_count, initial_count.
+  change (fold_left _ (ballots (set_quota s q)) (set_quota s q)) with (fold_left ic_step (ballots s) (set_quota s q)).
+  destruct (ic_fold (ballots s) (set_quota s q) (p_nd _ P) (p_wfb _ P)) as (_ & E2 & _ & E4 & _). cbv zeta in *.
+  split; [exact E2|]. split; [exact E4|reflexivity].
+Qed.
+
+Lemma start_triple2 (qr : res (T A)) tg msg (Qb Qc : est -> Prop) :
+  (forall q, qr = Ok q -> 0 <= R q /\ QX q) ->
+  T3 Pre2 (Do (fun s => log_action A cfg tg msg (start_count A qr s))) GE Qb Qc.
+Proof.
+  intros Hq. apply t_do_nc. intros s [P Hne] Hc. rewrite crashed_log in Hc. destruct qr as [q|e].
+  2:{ unfold start_count in Hc. rewrite sticky_set_crash in Hc. discriminate. }
+  destruct (Hq q eq_refl) as [Hq0 Hqx]. destruct (start_facts q s P) as (Est & Eqq & Eex).
+  assert (G: GH (start_count A (Ok q) s)) by (apply gh_start; assumption).
+  split; [split; [apply gh_log; exact G|rewrite crashed_log; exact Hc]|].
+  apply (eq_fr (start_count A (Ok q) s)); [apply fr_log| |].
+  - apply elq_log. intros c Hcin He. exfalso.
+    assert (Hin: In (cid c, (cst c, cpend c)) (stl (cands (start_count A (Ok q) s)))) by (unfold Forward.stl; apply in_map_iff; exists c; auto).
+    rewrite Est in Hin. unfold Forward.stl in Hin. apply in_map_iff in Hin. destruct Hin as (c0 & E0 & Hc0).
+    apply (Hne c0 Hc0). pose proof (f_equal (fun x => fst (snd x)) E0) as E1. cbn in E1. congruence.
+  - split; [intros c Hcin He; exfalso|].
+    + assert (Hin: In (cid c, (cst c, cpend c)) (stl (cands (start_count A (Ok q) s)))) by (unfold Forward.stl; apply in_map_iff; exists c; auto).
+      rewrite Est in Hin. unfold Forward.stl in Hin. apply in_map_iff in Hin. destruct Hin as (c0 & E0 & Hc0).
+      apply (Hne c0 Hc0). pose proof (f_equal (fun x => fst (snd x)) E0) as E1. cbn in E1. congruence.
+    + rewrite Eex, Eqq. split; [unfold V0; rewrite (r_of_int A S ZL); lia|exact Hqx].
+Qed.
+
+Lemma epilogue_wigm : T3 GE (Do (unpend_all A cfg) ;; Do (elect_or_defeat_remaining A cfg)) SeatsOK SeatsOK SeatsOK.
+Proof.
+  eapply t_seq with (M := SeatsOK).
+  - apply t_do_nc. intros s [[G Hc] E] Hcf. split; [split; [apply gh_unpend_all; exact G|exact Hcf]|].
+    rewrite (nel_unpend_all s (g_nd _ _ (proj1 G))). exact (seats_bound s (proj1 G) E).
+  - apply t_do_nc. intros s [[G Hc] Hn] Hcf. split; [split; [apply gh_elect_or_defeat; exact G|exact Hcf]|].
+    apply nel_eodr; [exact (g_nd _ _ (proj1 G))|exact Hn].
+Qed.
+
+Theorem wigm_seats : T3 Pre2 (wigm A cfg) SeatsOK SeatsOK SeatsOK.
+Proof.
+  unfold wigm. eapply t_seq with (M := GE).
+  - apply start_triple2. intros q E. split; [exact (wigm_quota_nonneg q E)|exact (wigm_quota_exceeds q E)].
+  - eapply t_seq with (M := GE); [|apply epilogue_wigm].
+    eapply t_conseq; [| | | |apply pnc2_triple]; try (intros s Hs; exact Hs).
+    + intros s [[G Hc] E]. split; [split; [exact G|exact Hc]|exact (seats_bound s (proj1 G) E)].
+    + intros s [[G Hc] E]. split; [split; [exact G|exact Hc]|exact (seats_bound s (proj1 G) E)].
+    + cbn [pnc2]. repeat match goal with |- _ /\ _ => split | |- True => exact I end.
+      * intros s G E _ _. apply ge_new_round; assumption.
+      * intros s G E _ _. apply ge_elect_with_quota; [intros c; apply has_quota_exact_le|exact G|exact E].
+      * intros s G E Hc Hcf. apply ge_transfer_high; try assumption; [apply bt_simple_logs|apply bt_simple_ok|apply rew_wigm_ok].
+      * intros s G E Hc Hcf. apply ge_wigm_defeat; assumption.
+Qed.
+
+
+Definition GEI (s : est) : Prop := GE s /\ BatchIn s.
+Definition GED (s : est) : Prop := GE s /\ BatchD s.
+
+Lemma prf_batch_branch2 msg :
+  T3 GEI (Do (defeat_batch_in_ballot_order A cfg msg) ;;
+          Ite (fun s => nlen (hopefuls A s) <=? seats_left A cfg s) Break Skip ;;
+          Do (transfer_batch A cfg (is_hopeful A)) ;; Continue) GE GE GE.
+Proof.
+  eapply t_seq with (M := GED); [|eapply t_seq with (M := GED); [|eapply t_seq with (M := GE)]].
+  - apply t_do_nc. intros s [[[G Hc] E] HB0] Hcf. destruct (gh_defeat_batch_order msg s G HB0) as (G1 & Ecr & HD).
+    split; [split; [split; [exact G1|exact Hcf]|]|exact HD].
+    apply (eq_fr s); [apply fr_defeat_batch_order|apply elq_defeat_batch_order; exact (proj1 E)|exact E].
+  - apply t_ite; [apply t_break'; intros s [[H _] _]; exact H|apply t_skip'; intros s [H _]; exact H].
+  - apply t_do_nc. intros s [[[G Hc] E] HD] Hcf. destruct is_hopeful_props as (K1 & K2 & K3).
+    destruct (gh_transfer_batch (is_hopeful A) s K1 K2 K3 G Hc HD) as [G1 Hc1]. split; [split; assumption|].
+    apply (eq_fr s); [apply fr_transfer_batch; exact G|apply elq_transfer_batch; [exact G|exact (proj1 E)|exact HD]|exact E].
+  - apply t_continue'. auto.
+Qed.
+
+Theorem wigm_prf_seats : T3 Pre2 (wigm_prf A cfg) SeatsOK SeatsOK SeatsOK.
+Proof.
+  unfold wigm_prf. eapply t_seq with (M := GE).
+  - apply start_triple2. intros q E. split; [exact (droop_quota_eps_nonneg q E)|exact (droop_quota_eps_exceeds q E)].
+  - eapply t_seq with (M := GE); [|apply epilogue_wigm].
+    eapply t_post; [|apply (t_while est (@crashed A) GE GE)]; [intros s [Hs|[Hs _]]; exact Hs|].
+    eapply t_pre; [intros s [Hs _]; exact Hs|].
+    eapply t_seq with (M := GE); [apply pnc2_triple; cbn [pnc2]; intros s G E _ _; apply ge_new_round; assumption|].
+    eapply t_seq with (M := GE); [apply pnc2_triple; cbn [pnc2]; intros s G E _ _; apply ge_elect_with_quota; [intros c; apply ge_quota_le|exact G|exact E]|].
+    eapply t_seq with (M := GEI).
+    { apply t_do_nc. intros s [[G Hc] E] _. split; [split; [split; [apply (gh_same s); try reflexivity; exact G|exact Hc]|]|].
+      - apply (eq_fr s); [apply fr_same; reflexivity|apply (elq_same s); [reflexivity|reflexivity|exact (proj1 E)]|exact E].
+      - unfold prf_find_batch. destruct (cf_batch cfg); [|intros i []].
+        apply (batchin_of_hopefuls s _ (batch_defeat A cfg (pending_surplus A s) s)); [reflexivity|reflexivity|apply batch_defeat_hopeful]. }
+    eapply t_seq with (M := GE).
+    { apply t_ite; [eapply t_pre; [|apply prf_batch_branch2]; intros s [Hs _]; exact Hs|apply t_skip'; intros s [[Hs _] _]; exact Hs]. }
+    apply pnc2_triple. cbn [pnc2]. repeat match goal with |- _ /\ _ => split | |- True => exact I end.
+    + intros s G E Hc Hcf. apply ge_transfer_high; try assumption; [apply bt_simple_logs|apply bt_simple_ok|apply rew_wigm_ok].
+    + intros s G E Hc Hcf. apply ge_defeat_low; try assumption; [apply bt_simple_logs|apply bt_simple_ok].
+Qed.
+
+Theorem scotland_seats : T3 Pre2 (scotland A cfg) SeatsOK SeatsOK SeatsOK.
+Proof.
+  unfold scotland. eapply t_seq with (M := GE).
+  - apply start_triple2. intros q E. inversion E; subst. split; [apply integer_quota_nonneg|apply integer_quota_exceeds].
+  - eapply t_seq with (M := GE).
+    + eapply t_conseq; [| | | |apply pnc2_triple]; try (intros s Hs; exact Hs);
+        try (intros s [[G Hc] E]; split; [split; [exact G|exact Hc]|exact (seats_bound s (proj1 G) E)]).
+      cbn [pnc2]. repeat match goal with |- _ /\ _ => split | |- True => exact I end.
+      * intros s G E _ _. apply ge_elect_with_quota; [intros c; apply ge_quota_le|exact G|exact E].
+      * intros s G E _ _. apply ge_new_round; assumption.
+      * intros s G E _ _. split; [apply (gh_same s); try reflexivity; exact G|].
+        apply (eq_fr s); [apply fr_same; reflexivity|apply (elq_same s); [reflexivity|reflexivity|exact (proj1 E)]|exact E].
+      * intros s G E Hc Hcf. apply ge_transfer_high; try assumption; [apply scot_bt_logs|apply scot_bt_ok|apply rew_scot_ok].
+      * intros s G E Hc Hcf. apply ge_defeat_low; try assumption; [apply scot_bt_logs|apply scot_bt_ok].
+    + eapply t_seq with (M := SeatsOK).
+      * apply t_do_nc. intros s [[G Hc] E] Hcf. split; [split; [apply gh_unpend_all; exact G|exact Hcf]|].
+        rewrite (nel_unpend_all s (g_nd _ _ (proj1 G))). exact (seats_bound s (proj1 G) E).
+      * eapply t_seq with (M := SeatsOK).
+        -- apply t_ite; [|apply t_skip'; intros s [Hs _]; exact Hs].
+           apply t_do_nc. intros s [[[G Hc] Hn] Hg] Hcf. split; [split; [apply gh_fold_elect_np; exact G|exact Hcf]|].
+           pose proof (nel_fold_elect "Elect remaining candidates" false (hopefuls A s) s (g_nd _ _ (proj1 G))) as Hle.
+           unfold seats_left, electeds in Hg. unfold nel in *. lia.
+        -- apply t_do_nc. intros s [[G Hc] Hn] Hcf. split; [split; [apply gh_fold_defeat; exact G|exact Hcf]|].
+           pose proof (nel_fold_defeat "Defeat remaining candidates" (hopefuls A s) s). lia.
+Qed.
+
 End Ops.
 End Conserve.
